@@ -143,7 +143,9 @@ def check_ret(run, cx, cfg, key, fn, body, paths):
         ok = False
         if p and p['ret'][0] == 'ret':
             e = p['events'][p['ret'][1]]
-            ok = is_call(e, 'core::ops::function::FnMut', 'call_mut') and e['args'] == [('ref', self_loc(F('map'))), ('agg', ('tuple',), (pulled(p, 'signal'),))]
+            # (`call_once` on the REFERENCE `&mut self.map` -- the closure handed to a helper as `impl FnOnce` -- is `call_mut` on the closure)
+            ok = (is_call(e, 'core::ops::function::FnMut', 'call_mut') or is_call(e, 'core::ops::function::FnOnce', 'call_once')) \
+                and e['args'] == [('ref', self_loc(F('map'))), ('agg', ('tuple',), (pulled(p, 'signal'),))]
         if not ok:
             bad = 'must return map(signal.next())'
     elif name == 'ZipMap':
